@@ -190,4 +190,223 @@ theorem parseQuoted_plain (v rest : Bytes) (len : Nat) (hv : ∀ c ∈ v, isPlai
     rw [show len + 2 = (len + 1) + 1 from rfl]
     simp only [qsLoop, hstep1, hstep2]
 
+/-! ### quoted-strings with quoted-pairs of ordinary octets -/
+
+/-- content of a quoted-string as atoms: (written as a quoted-pair?, octet) -/
+abbrev QAtoms := List (Bool × UInt8)
+
+/-- the spelling between the quotes -/
+def encQ : QAtoms → Bytes
+  | [] => []
+  | (false, c) :: r => c :: encQ r
+  | (true, c) :: r => 92 :: c :: encQ r
+
+/-- the value: every quoted-pair `\x` stands for `x` -/
+def valsQ (l : QAtoms) : Bytes := l.map (·.2)
+
+/-- leading atoms that are not quoted-pairs -/
+def plainPrefix : QAtoms → Bytes × QAtoms
+  | (false, c) :: r => (c :: (plainPrefix r).1, (plainPrefix r).2)
+  | l => ([], l)
+
+theorem plainPrefix_spec (l : QAtoms) :
+    encQ l = (plainPrefix l).1 ++ encQ (plainPrefix l).2 ∧ valsQ l = (plainPrefix l).1 ++ valsQ (plainPrefix l).2 ∧
+    (plainPrefix l).2.length ≤ l.length ∧ ((plainPrefix l).2 = [] ∨ ∃ c r, (plainPrefix l).2 = (true, c) :: r) ∧
+    (∀ x ∈ (plainPrefix l).1, (false, x) ∈ l) ∧ (∀ a ∈ (plainPrefix l).2, a ∈ l) := by
+  induction l with
+  | nil => simp [plainPrefix, encQ, valsQ]
+  | cons a r ih =>
+    obtain ⟨b, c⟩ := a
+    cases b with
+    | true => simp [plainPrefix, encQ, valsQ]
+    | false =>
+      obtain ⟨h1, h2, h3, h4, h5, h6⟩ := ih
+      refine ⟨?_, ?_, ?_, h4, ?_, ?_⟩
+      · simp only [plainPrefix, encQ, List.cons_append]; rw [← h1]
+      · simp only [valsQ, List.map_cons, plainPrefix, List.cons_append] at h2 ⊢; rw [← h2]
+      · simp only [plainPrefix, List.length_cons]; omega
+      · intro x hx
+        simp only [plainPrefix, List.mem_cons] at hx
+        rcases hx with rfl | hx
+        · exact List.mem_cons_self
+        · exact List.mem_cons_of_mem _ (h5 x hx)
+      · intro a ha
+        exact List.mem_cons_of_mem _ (h6 a ha)
+
+theorem cget_at (pre post : Bytes) : cget (34 :: (pre ++ post)) (1 + pre.length) = cget post 0 := by
+  rw [Nat.add_comm, cget_cons_succ, cget_append_right]
+
+theorem cget_at_add (pre mid post : Bytes) : cget (34 :: (pre ++ (mid ++ post))) (1 + pre.length + mid.length) = cget post 0 := by
+  have := cget_at (pre ++ mid) post
+  simp only [List.length_append, List.append_assoc] at this
+  rw [← this]; congr 1; omega
+
+theorem drop_at (pre post : Bytes) : (34 :: (pre ++ post)).drop (1 + pre.length) = post := by
+  rw [Nat.add_comm, List.drop_succ_cons, List.drop_left']; rfl
+
+/-- the loop on a well-formed content: from the position after `pre`, with the atoms `post` and the closing quote ahead -/
+theorem qsLoop_atoms (n : Nat) : ∀ (post : QAtoms), post.length ≤ n → ∀ (pre val rest : Bytes) (len f : Nat),
+    (∀ a ∈ post, isPlainQ a.2 = true) → pre.length + (encQ post).length + 1 ≤ len → post.length + 1 ≤ f →
+    qsLoop (34 :: (pre ++ (encQ post ++ 34 :: rest))) len f (1 + pre.length) val = some (val ++ valsQ post) := by
+  induction n with
+  | zero =>
+    intro post hn pre val rest len f _ _ hf
+    have : post = [] := List.length_eq_zero_iff.mp (by omega)
+    subst this
+    cases f with
+    | zero => omega
+    | succ f =>
+      have hc : cget (34 :: (pre ++ (encQ [] ++ 34 :: rest))) (1 + pre.length) = 34 := by
+        simp only [encQ, List.nil_append]; rw [cget_at]; rfl
+      simp only [qsLoop, qsStep, hc]
+      simp [valsQ]
+  | succ n ih =>
+    intro post hn pre val rest len f hv hlen hf
+    cases post with
+    | nil => exact ih [] (by simp) pre val rest len f hv hlen hf
+    | cons a post' =>
+      cases f with
+      | zero => omega
+      | succ f =>
+        obtain ⟨b, c⟩ := a
+        have hcp : isPlainQ c = true := hv (b, c) List.mem_cons_self
+        obtain ⟨f1, f2, f3, f4, f5, f6, f7⟩ := isPlainQ_facts c hcp
+        cases b with
+        | false =>
+          -- a run of plain octets: c and the plain prefix of post'
+          obtain ⟨h1, h2, h3, h4, h5, h6⟩ := plainPrefix_spec post'
+          generalize hcs : (plainPrefix post').1 = cs at *
+          generalize hp2 : (plainPrefix post').2 = post2 at *
+          have hcsplain : ∀ x ∈ c :: cs, isPlainQ x = true := by
+            intro x hx
+            simp only [List.mem_cons] at hx
+            rcases hx with rfl | hx
+            · exact hcp
+            · exact hv (false, x) (List.mem_cons_of_mem _ (h5 x hx))
+          have henc : encQ ((false, c) :: post') = (c :: cs) ++ encQ post2 := by simp only [encQ, h1, List.cons_append]
+          have hnext : ∀ y, (encQ post2 ++ 34 :: rest).head? = some y → isPlainQ y = false := by
+            intro y hy
+            rcases h4 with h4 | ⟨c2, r2, h4⟩
+            · subst h4; simp [encQ] at hy; subst hy; decide
+            · subst h4; simp [encQ] at hy; subst hy; decide
+          have hc : cget (34 :: (pre ++ (encQ ((false, c) :: post') ++ 34 :: rest))) (1 + pre.length) = c := by
+            rw [cget_at]; simp [encQ, cget]
+          have hlen' : 1 + pre.length < len := by simp [encQ] at hlen; omega
+          have hdrop : (34 :: (pre ++ (encQ ((false, c) :: post') ++ 34 :: rest))).drop (1 + pre.length) =
+              (c :: cs) ++ (encQ post2 ++ 34 :: rest) := by
+            rw [drop_at, henc, List.append_assoc]
+          have hrun : plainRun ((34 :: (pre ++ (encQ ((false, c) :: post') ++ 34 :: rest))).drop (1 + pre.length)) (len - (1 + pre.length)) = (c :: cs).length := by
+            rw [hdrop]
+            apply plainRun_all _ _ _ hcsplain _ hnext
+            rw [henc] at hlen
+            simp only [List.length_append, List.length_cons] at hlen ⊢
+            omega
+          have hce : cget (34 :: (pre ++ (encQ ((false, c) :: post') ++ 34 :: rest))) (1 + pre.length + (c :: cs).length) = cget (encQ post2 ++ 34 :: rest) 0 := by
+            rw [henc, List.append_assoc]
+            exact cget_at_add pre (c :: cs) _
+          have hce2 : ¬ ((cget (encQ post2 ++ 34 :: rest) 0 ≤ 0x1F ∧ cget (encQ post2 ++ 34 :: rest) 0 ≠ 13 ∧ cget (encQ post2 ++ 34 :: rest) 0 ≠ 10) ∨ cget (encQ post2 ++ 34 :: rest) 0 = 0x7F) := by
+            rcases h4 with h4 | ⟨c2, r2, h4⟩
+            · subst h4; simp [encQ, cget]
+            · subst h4; simp [encQ, cget]
+          have hstep : qsStep (34 :: (pre ++ (encQ ((false, c) :: post') ++ 34 :: rest))) len (1 + pre.length) val =
+              .next (1 + pre.length + (c :: cs).length) (val ++ (c :: cs)) := by
+            simp only [qsStep, hc, ne_eq, f1, not_false_eq_true, hlen', and_self, not_true_eq_false, ↓reduceIte, f3, f4,
+              qsPlain, f2, qsRun, hrun, hce, hce2]
+            rw [hdrop]
+            simp
+          simp only [qsLoop, hstep]
+          -- continue after the run
+          have hre : (34 :: (pre ++ (encQ ((false, c) :: post') ++ 34 :: rest))) = 34 :: ((pre ++ (c :: cs)) ++ (encQ post2 ++ 34 :: rest)) := by
+            rw [henc]; simp
+          rw [hre]
+          have hpos : 1 + pre.length + (c :: cs).length = 1 + (pre ++ (c :: cs)).length := by simp; omega
+          rw [hpos]
+          have := ih post2 (by simp at hn; omega) (pre ++ (c :: cs)) (val ++ (c :: cs)) rest len f
+            (fun a ha => hv a (List.mem_cons_of_mem _ (h6 a ha)))
+            (by rw [henc] at hlen; simp only [List.length_append, List.length_cons] at hlen ⊢; omega)
+            (by simp at hf; omega)
+          rw [this]
+          simp only [valsQ, List.map_cons] at h2 ⊢
+          rw [h2]; simp
+        | true =>
+          -- a quoted-pair: backslash, c, and the plain prefix of post'
+          obtain ⟨h1, h2, h3, h4, h5, h6⟩ := plainPrefix_spec post'
+          generalize hcs : (plainPrefix post').1 = cs at *
+          generalize hp2 : (plainPrefix post').2 = post2 at *
+          have hcsplain : ∀ x ∈ c :: cs, isPlainQ x = true := by
+            intro x hx
+            simp only [List.mem_cons] at hx
+            rcases hx with rfl | hx
+            · exact hcp
+            · exact hv (false, x) (List.mem_cons_of_mem _ (h5 x hx))
+          have henc : encQ ((true, c) :: post') = 92 :: ((c :: cs) ++ encQ post2) := by simp only [encQ, h1, List.cons_append]
+          have hnext : ∀ y, (encQ post2 ++ 34 :: rest).head? = some y → isPlainQ y = false := by
+            intro y hy
+            rcases h4 with h4 | ⟨c2, r2, h4⟩
+            · subst h4; simp [encQ] at hy; subst hy; decide
+            · subst h4; simp [encQ] at hy; subst hy; decide
+          have hc : cget (34 :: (pre ++ (encQ ((true, c) :: post') ++ 34 :: rest))) (1 + pre.length) = 92 := by
+            rw [cget_at]; simp [encQ, cget]
+          have hre1 : (34 :: (pre ++ (encQ ((true, c) :: post') ++ 34 :: rest))) =
+              34 :: ((pre ++ [92]) ++ ((c :: cs) ++ (encQ post2 ++ 34 :: rest))) := by
+            rw [henc]; simp
+          have hpos1 : 1 + pre.length + 1 = 1 + (pre ++ [92]).length := by simp; omega
+          have hc1 : cget (34 :: (pre ++ (encQ ((true, c) :: post') ++ 34 :: rest))) (1 + pre.length + 1) = c := by
+            rw [hre1, hpos1, cget_at]; simp [cget]
+          have hlen' : 1 + pre.length < len := by simp [encQ] at hlen; omega
+          have hlen1 : ¬ (1 + pre.length + 1 > len) := by simp [encQ] at hlen; omega
+          have hdrop : (34 :: (pre ++ (encQ ((true, c) :: post') ++ 34 :: rest))).drop (1 + pre.length + 1) =
+              (c :: cs) ++ (encQ post2 ++ 34 :: rest) := by
+            rw [hre1, hpos1, drop_at]
+          have hrun : plainRun ((34 :: (pre ++ (encQ ((true, c) :: post') ++ 34 :: rest))).drop (1 + pre.length + 1)) (len - (1 + pre.length + 1)) = (c :: cs).length := by
+            rw [hdrop]
+            apply plainRun_all _ _ _ hcsplain _ hnext
+            rw [henc] at hlen
+            simp only [List.length_append, List.length_cons] at hlen ⊢
+            omega
+          have hce : cget (34 :: (pre ++ (encQ ((true, c) :: post') ++ 34 :: rest))) (1 + pre.length + 1 + (c :: cs).length) = cget (encQ post2 ++ 34 :: rest) 0 := by
+            rw [hre1, hpos1]
+            exact cget_at_add (pre ++ [92]) (c :: cs) _
+          have hce2 : ¬ ((cget (encQ post2 ++ 34 :: rest) 0 ≤ 0x1F ∧ cget (encQ post2 ++ 34 :: rest) 0 ≠ 13 ∧ cget (encQ post2 ++ 34 :: rest) 0 ≠ 10) ∨ cget (encQ post2 ++ 34 :: rest) 0 = 0x7F) := by
+            rcases h4 with h4 | ⟨c2, r2, h4⟩
+            · subst h4; simp [encQ, cget]
+            · subst h4; simp [encQ, cget]
+          have hstep : qsStep (34 :: (pre ++ (encQ ((true, c) :: post') ++ 34 :: rest))) len (1 + pre.length) val =
+              .next (1 + pre.length + 1 + (c :: cs).length) (val ++ (c :: cs)) := by
+            simp only [qsStep, hc, ne_eq, show ¬ ((92 : UInt8) = 34) by decide, not_false_eq_true, hlen', and_self,
+              not_true_eq_false, ↓reduceIte, show ¬ ((92 : UInt8) = 13) by decide, show ¬ ((92 : UInt8) = 10) by decide,
+              qsPlain, hc1, f5, hlen1, or_self, qsRun, hrun, hce, hce2]
+            rw [hdrop]
+            simp
+          simp only [qsLoop, hstep]
+          have hre : (34 :: (pre ++ (encQ ((true, c) :: post') ++ 34 :: rest))) = 34 :: ((pre ++ 92 :: (c :: cs)) ++ (encQ post2 ++ 34 :: rest)) := by
+            rw [henc]; simp
+          rw [hre]
+          have hpos : 1 + pre.length + 1 + (c :: cs).length = 1 + (pre ++ 92 :: (c :: cs)).length := by simp; omega
+          rw [hpos]
+          have := ih post2 (by simp at hn; omega) (pre ++ 92 :: (c :: cs)) (val ++ (c :: cs)) rest len f
+            (fun a ha => hv a (List.mem_cons_of_mem _ (h6 a ha)))
+            (by rw [henc] at hlen; simp only [List.length_append, List.length_cons] at hlen ⊢; omega)
+            (by simp at hf; omega)
+          rw [this]
+          simp only [valsQ, List.map_cons] at h2 ⊢
+          rw [h2]; simp
+
+/-- a quoted-string whose content consists of plain octets and quoted-pairs of plain octets (anything but DQUOTE,
+backslash, controls, DEL after the backslash) yields the content with every quoted-pair replaced by its octet -/
+theorem parseQuoted_atoms (atoms : QAtoms) (rest : Bytes) (len : Nat) (hv : ∀ a ∈ atoms, isPlainQ a.2 = true)
+    (hlen : (encQ atoms).length + 1 ≤ len) :
+    parseQuoted (34 :: (encQ atoms ++ 34 :: rest)) len = some (valsQ atoms) := by
+  unfold parseQuoted
+  have h0 : cget (34 :: (encQ atoms ++ 34 :: rest)) 0 = 34 := rfl
+  simp only [h0, ne_eq, not_true_eq_false, ↓reduceIte]
+  have hflen : atoms.length ≤ (encQ atoms).length := by
+    clear hv hlen h0
+    induction atoms with
+    | nil => simp
+    | cons a r ih => obtain ⟨b, c⟩ := a; cases b <;> simp [encQ] <;> omega
+  have := qsLoop_atoms atoms.length atoms (Nat.le_refl _) [] [] rest len (len + 2) hv (by simpa using hlen) (by omega)
+  simpa using this
+
+
 end SquidModel.Cc
